@@ -189,7 +189,7 @@ REG.contract(
 # ================================================================================================ _prepare_tags_and_urls
 DATA = Seq(Tup(TStr, TStr, OS, tag="DepTriple", fields=["hash", "kind", "input"]))
 REG.contract(
-    f"{DEP}:_prepare_tags_and_urls", prop=P, types={"data": DATA, "type": Str}, globals={"media_cache": CACHE, "comp_hash_mapping": MAPPING},
+    f"{DEP}:_prepare_tags_and_urls", prop=("C19", "C04"), types={"data": DATA, "type": Str}, globals={"media_cache": CACHE, "comp_hash_mapping": MAPPING},
     locals={"to_load_js_urls": Seq(Str), "to_load_css_urls": Seq(Str), "inlined_js_tags": Seq(Str), "inlined_css_tags": Seq(Str),
             "loaded_js_urls": Seq(Str), "loaded_css_urls": Seq(Str)},
     requires=[lambda c: _all_hashes_known(c)],
